@@ -3,12 +3,14 @@
 D="${1:-/repo}"
 export GOFLAGS=-mod=mod GOPROXY=off GOSUMDB=off GOTOOLCHAIN=local
 export GOCACHE="${GOCACHE:-/verif/.build/gocache}"
-cd "$D" && go test -json -vet=off -count=1 -timeout 25m ./... > /verif/.build/repotest.json 2>/verif/.build/repotest.err
+OUT="/verif/.build/repotest.$$.json"
+export OUT
+cd "$D" && go test -json -vet=off -count=1 -timeout 25m ./... > "$OUT" 2>"$OUT.err"
 python3 - <<'PY'
-import json
+import json, os
 base=set(json.load(open('/root/.vp/BASELINE.json'))['stable_pass'])
 res={}
-for l in open('/verif/.build/repotest.json'):
+for l in open(os.environ['OUT']):
     try: e=json.loads(l)
     except: continue
     if e.get('Test') and e.get('Action') in('pass','fail','skip'):
@@ -19,3 +21,6 @@ print(f"baseline={len(base)} passed_now={len(passed)} baseline_not_passing={len(
 for m in missing[:30]: print('  NOT PASSING:',m,res.get(m))
 import sys; sys.exit(1 if missing else 0)
 PY
+rc=$?
+rm -f "$OUT" "$OUT.err"
+exit $rc
